@@ -49,7 +49,7 @@ RULE = (
     "dispatching-rule solvers; CP-SAT; 4 graph builders; solved graph; an "
     "environment episode) after which the instance's operations, their "
     "identity, name, metadata and EVERY view must be unchanged. Kind "
-    "'schedule': non-flexible instance x dispatcher-built schedule S: "
+    "'schedule': non-flexible instance x dispatcher-built schedule S (the sequences / dictionary handed to the library are used for a second rebuild and must be left unchanged): "
     "from_job_sequences(I, seq(S)) and from_dict(**S.to_dict()) (also via "
     "JSON) reproduce S; per-machine job sequences obtained from seq(S) by "
     "swaps or by uniformly random permutation are accepted exactly when the "
@@ -467,9 +467,19 @@ def schedule_case(case, ctx):
     seqs = [[s.job_id for s in lst] for lst in sched.schedule]
     dct = sched.to_dict()
     ctx.check(dct["job_sequences"] == seqs, "to_dict-sequences", f"to_dict job_sequences {dct['job_sequences']} != {seqs}")
-    rebuilt = with_alarm(20, lambda: Schedule.from_job_sequences(instance, [list(s) for s in seqs]))
+    given = [list(s) for s in seqs]
+    rebuilt = with_alarm(20, lambda: Schedule.from_job_sequences(instance, given))
     ctx.check(fp.schedule(rebuilt) == original, "roundtrip:job_sequences", "from_job_sequences(I, seq(S)) differs from S")
-    for name, blob in (("dict", dct), ("json", json.loads(json.dumps(dct)))):
+    ctx.check(given == seqs, "input-modified", f"from_job_sequences changed the job sequences it was given: {given}, were {seqs}")
+    # the same sequences object / dictionary is used for a second rebuild
+    rebuilt2 = with_alarm(20, lambda: Schedule.from_job_sequences(instance, given))
+    ctx.check(fp.schedule(rebuilt2) == original, "roundtrip:job_sequences", "a second from_job_sequences(I, seq(S)) with the same list object differs from S")
+    as_tuples = tuple(tuple(s) for s in seqs)
+    if len(history) % 2:
+        rebuilt3 = with_alarm(20, lambda: Schedule.from_job_sequences(instance, [list(s) for s in as_tuples]))
+        ctx.check(fp.schedule(rebuilt3) == original, "roundtrip:job_sequences", "third rebuild differs from S")
+    dct_before = json.dumps(dct, sort_keys=True)
+    for name, blob in (("dict", dct), ("dict-again", dct), ("json", json.loads(json.dumps(dct)))):
         back = with_alarm(20, lambda b=blob: Schedule.from_dict(**b))
         ctx.check(
             fp.schedule(back) == original,
@@ -482,6 +492,11 @@ def schedule_case(case, ctx):
             f"metadata {back.metadata!r} != {case['meta']!r} via {name}",
         )
         same_content(ctx, "roundtrip:schedule-instance", instance, back.instance, f"instance inside from_dict via {name}")
+    ctx.check(
+        json.dumps(dct, sort_keys=True) == dct_before,
+        "input-modified",
+        f"Schedule.from_dict changed the dictionary it was given: {json.dumps(dct, sort_keys=True)}, was {dct_before}",
+    )
     # acceptance of other sequences
     perm = [list(s) for s in seqs]
     if case["shuffle"] is not None:
